@@ -795,19 +795,21 @@ func ReadLogical(f *txfile.File) (root uint64, pages [][2]interface{}, model map
 
 // Resize closes the file and opens it again with a new maximum size (FlagUpdMaxSize).
 func (e *Env) Resize(newMax uint64, prealloc bool) error {
-	vol, _ := e.Disk.Snapshot()
-	before := uint(len(vol))
 	// the extent the file already claims: pages up to the end markers may not have been written yet
 	snap := e.F.VerifSnapshot(false)
 	end := snap.DataEnd
 	if snap.MetaEnd > end {
 		end = snap.MetaEnd
 	}
-	if uint(end)*uint(e.PS) > before {
-		before = uint(end) * uint(e.PS)
-	}
 	if err := e.F.Close(); err != nil {
 		return err
+	}
+	// (measured after Close: writes of a rolled back transaction may still have been queued in
+	// the background writer and extend the file before it is closed)
+	vol, _ := e.Disk.Snapshot()
+	before := uint(len(vol))
+	if uint(end)*uint(e.PS) > before {
+		before = uint(end) * uint(e.PS)
 	}
 	e.unsinkOld()
 	e.Disk.Reopen()
